@@ -49,6 +49,13 @@ def enumerated(tier, seed):
             jds = [[1, 0]] * (size * cnt) + [[0, 1]] * cnt
             out.append({"algo": "motifs", "path": "class" if cnt % 2 else "main_str", "N": len(jds), "jds": jds, "motifs": [mo],
                         "rng": {"mode": "seed", "seed": seed * 10 + cnt}})
+    # two topologies that carry the same name (names are labels only) but differ in size / callback
+    for algo in ("fast", "network"):
+        for names in (["edge", "tri", "edge"], [None, None, None], ["a", "a", "b"]):
+            motifs = [{"kind": k, "m": m, "edges": [], "ret": "list", "orbit_sizes": [m], "cols": [j], "names": nm}
+                      for j, (k, m, nm) in enumerate(zip(("clique", "clique", "cycle"), (2, 3, 4), names))]
+            out.append({"algo": algo, "path": "class", "N": 12, "jds": [[2, 1, 1]] * 12, "motifs": motifs,
+                        "rng": {"mode": "seed", "seed": seed * 10 + len(out)}})
     return out
 
 
